@@ -41,6 +41,15 @@ var (
 )
 
 func nRegister(ws []*nWorker, add bool) {
+	gids := make([]int64, len(ws))
+	for i, w := range ws {
+		gids[i] = w.gid
+	}
+	nRegisterGids(gids, ws, add)
+}
+
+// nRegisterGids: ws == nil registers the goroutines as "quiet" (scheduling points are no-ops for them).
+func nRegisterGids(gids []int64, ws []*nWorker, add bool) {
 	nTableMu.Lock()
 	defer nTableMu.Unlock()
 	m := map[int64]*nWorker{}
@@ -49,11 +58,15 @@ func nRegister(ws []*nWorker, add bool) {
 			m[k] = v
 		}
 	}
-	for _, w := range ws {
+	for i, g := range gids {
 		if add {
-			m[w.gid] = w
+			if ws != nil {
+				m[g] = ws[i]
+			} else {
+				m[g] = nil
+			}
 		} else {
-			delete(m, w.gid)
+			delete(m, g)
 		}
 	}
 	nTable.Store(&m)
@@ -65,6 +78,9 @@ func installNHook() {
 	verifhook.Yield = func(point string) {
 		if t := nTable.Load(); t != nil && len(*t) > 0 {
 			if w, ok := (*t)[goid()]; ok {
+				if w == nil {
+					return // a worker of mode=cbconc: the wrapped schedule is one atomic object there
+				}
 				w.parked <- "K"
 				<-w.resume
 				return
@@ -74,30 +90,6 @@ func installNHook() {
 			prev(point)
 		}
 	}
-}
-
-// nPoll: one look at a released worker: its event, "W" (waiting on a lock under core/schedule) or "" (still running).
-func nPoll(w *nWorker, wait time.Duration) string {
-	t := time.NewTimer(wait)
-	defer t.Stop()
-	select {
-	case ev := <-w.parked:
-		return ev
-	case <-t.C:
-	}
-	if syncBlocked(w.gid, "/core/schedule.") {
-		t2 := time.NewTimer(500 * time.Microsecond)
-		defer t2.Stop()
-		select {
-		case ev := <-w.parked:
-			return ev
-		case <-t2.C:
-		}
-		if syncBlocked(w.gid, "/core/schedule.") {
-			return "W"
-		}
-	}
-	return ""
 }
 
 func runNConc(m map[string]string) string {
@@ -165,30 +157,49 @@ func runNConc(m map[string]string) string {
 			w.left--
 		}
 	}
-	// settle: every released worker has parked / returned or waits for a lock
+	// settle: every released worker has parked / returned (its event is taken) or waits for a lock held by a parked one
 	settle := func() {
-		deadline := time.Now().Add(4 * time.Second)
 		for {
-			pending := false
+			var mids []*nWorker
+			var gids []int64
 			for _, w := range ws {
-				if !w.mid {
-					continue
-				}
-				switch ev := nPoll(w, 200*time.Microsecond); ev {
-				case "":
-					pending = true
-				case "W":
-				default:
-					take(w, ev)
-					pending = true // it may have released a lock others wait for: look at them again
+				if w.mid {
+					mids = append(mids, w)
+					gids = append(gids, w.gid)
 				}
 			}
-			if !pending {
+			if len(mids) == 0 {
 				return
 			}
-			if time.Now().After(deadline) {
+			if len(mids) == 1 {
+				// the usual case: the released worker parks within microseconds
+				t := time.NewTimer(300 * time.Microsecond)
+				select {
+				case ev := <-mids[0].parked:
+					t.Stop()
+					take(mids[0], ev)
+					return
+				case <-t.C:
+				}
+			}
+			st := settleGoroutines(gids, "/core/schedule.", 4*time.Second)
+			if st == nil {
 				hang = true
 				return
+			}
+			took := false
+			for k, w := range mids {
+				if st[k] == gEvent {
+					select {
+					case ev := <-w.parked:
+						take(w, ev)
+						took = true
+					default:
+					}
+				}
+			}
+			if !took {
+				return // all of them wait for a lock
 			}
 		}
 	}
